@@ -116,6 +116,23 @@ int32_t jls_tmap_add_cbk(void * user_data, const struct jls_utc_summary_entry_s 
     return 0;
 }
 
+// round(a * b / c) for c > 0.  The product needs up to 127 bits: a double keeps 53,
+// which loses whole ticks once |a * b / c| exceeds 2^53.
+#if defined(__SIZEOF_INT128__)
+__extension__ typedef __int128 i128_t;
+#endif
+
+static int64_t muldiv_i64(int64_t a, int64_t b, int64_t c) {
+#if defined(__SIZEOF_INT128__)
+    i128_t n = ((i128_t) a) * b;
+    i128_t h = c / 2;
+    n = (n >= 0) ? ((n + h) / c) : -((h - n) / c);
+    return (int64_t) n;
+#else
+    return (int64_t) round(((double) a) * (((double) b) / ((double) c)));
+#endif
+}
+
 int64_t interp_i64(struct jls_tmap_s * self, int64_t x0, int64_t const * x, int64_t const * y) {
     // binary search for x index with value less than or equal to x0
     size_t low = 0;
@@ -137,12 +154,11 @@ int64_t interp_i64(struct jls_tmap_s * self, int64_t x0, int64_t const * x, int6
     }
 
     // interpolate
-    double dk = (double) (x0 - x[low]);
-    double ds = (double) (x[low + 1] - x[low]);
-    double dt = (double) (y[low + 1] - y[low]);
-    double slope = dt / ds;
-    int64_t k = (int64_t) round(dk * slope);
-    return y[low] + k;
+    int64_t ds = x[low + 1] - x[low];
+    if (ds <= 0) {
+        return y[low];
+    }
+    return y[low] + muldiv_i64(x0 - x[low], y[low + 1] - y[low], ds);
 }
 
 int32_t jls_tmap_sample_id_to_timestamp(struct jls_tmap_s * self, int64_t sample_id, int64_t * timestamp) {
@@ -152,10 +168,15 @@ int32_t jls_tmap_sample_id_to_timestamp(struct jls_tmap_s * self, int64_t sample
         if (self->sample_rate <= 0) {
             return JLS_ERROR_UNAVAILABLE;
         }
-        double dsample = (double) (sample_id - self->sample_id[0]);
-        double dt = dsample / self->sample_rate;
-        dt *= JLS_TIME_SECOND;
-        *timestamp = self->utc[0] + (int64_t) dt;
+        int64_t rate = (int64_t) self->sample_rate;
+        if ((rate > 0) && (((double) rate) == self->sample_rate)) {
+            *timestamp = self->utc[0] + muldiv_i64(sample_id - self->sample_id[0], JLS_TIME_SECOND, rate);
+        } else {
+            double dsample = (double) (sample_id - self->sample_id[0]);
+            double dt = dsample / self->sample_rate;
+            dt *= JLS_TIME_SECOND;
+            *timestamp = self->utc[0] + (int64_t) dt;
+        }
     } else {
         *timestamp = interp_i64(self, sample_id, self->sample_id, self->utc);
     }
@@ -169,9 +190,14 @@ int32_t jls_tmap_timestamp_to_sample_id(struct jls_tmap_s * self, int64_t timest
         if (self->sample_rate <= 0) {
             return JLS_ERROR_UNAVAILABLE;
         }
-        double dt = (double) (timestamp - self->utc[0]);
-        dt *= (1.0 / JLS_TIME_SECOND);
-        *sample_id = self->sample_id[0] + (int64_t) (dt * self->sample_rate);
+        int64_t rate = (int64_t) self->sample_rate;
+        if ((rate > 0) && (((double) rate) == self->sample_rate)) {
+            *sample_id = self->sample_id[0] + muldiv_i64(timestamp - self->utc[0], rate, JLS_TIME_SECOND);
+        } else {
+            double dt = (double) (timestamp - self->utc[0]);
+            dt *= (1.0 / JLS_TIME_SECOND);
+            *sample_id = self->sample_id[0] + (int64_t) (dt * self->sample_rate);
+        }
     } else {
         *sample_id = interp_i64(self, timestamp, self->utc, self->sample_id);
     }
